@@ -10,26 +10,37 @@ META = {
                  "model of PauliWord/PauliSentence with exact Gaussian-integer matrix semantics + vm_compute correspondence "
                  "against the real classes, with the multiplication table exported from the running module",
     "design_ref": "DESIGN.md §3 C51",
-    "text": "Kernel-checked theorems (Props/C51.v): the 16 single-qubit products agree with 2x2 matrix products (table_ok); "
-            "word multiplication is the wire-wise product with phases multiplied and its matrix is the product of the "
-            "matrices for every wire order containing the wires (word_mul_algebraic, word_mul_hom, all n); sentence +, "
-            "scalar *, @ are linear/bilinear at the coefficient level and +, scalar * and @ are matrix homomorphisms; "
-            "two words commute iff the number of wires where both act with different letters is even, and the commutator "
-            "is a@b - b@a; the matrix trace is 2^n times the identity coefficient.  The model's executable definitions are "
-            "evaluated inside Coq on the same random sentences as the real PauliWord/PauliSentence (@, +, -, scalar *, "
-            "commutator, trace, commutes_with, to_mat dense/csr/coo with several buffer sizes, operation(), pauli_decompose "
-            "dense and sparse, pauli_sentence) and compared exactly; numpy matrix identities and round trips are evaluated "
-            "directly on the implementation's output as well.",
+    "text": "17 kernel-checked theorems (Props/C51.v), all universally quantified: the 16 single-qubit products agree with "
+            "2x2 matrix products (table_ok, exhaustive); the Kronecker mixed-product lemma for full words of any length "
+            "(full_word_mul_hom); PauliWord._matmul (dict merge incl. the base/iterator swap and the dropped-identity quirk) is "
+            "the wire-wise product with phases multiplied and mat(w1@w2) = mat(w1) mat(w2) for all words, all n and every "
+            "duplicate-free wire order containing the wires (word_mul_algebraic, word_mul_hom); +, -, scalar * and @ of "
+            "sentences at the coefficient level (add_coeff, add_comm_assoc, scalar_laws, sentence_mul_is_bilinear_extension, "
+            "sentence_mul_distributes) and as matrix homomorphisms (sentence_add_scalar_mat_hom, sentence_mul_mat_hom, all n); "
+            "commutes_with = parity of the wires where both words act with different letters, and that parity decides whether "
+            "b@a = +a@b or -a@b (commutes_iff_even_overlap, commutes_decides_products, word_commutator_is_ab_minus_ba); matrix "
+            "trace = 2^n * identity coefficient = 2^n * trace() (trace_is_identity_coeff, trace_method_is_identity_coeff); "
+            "constructed words are canonical.  Tie: the multiplication/anticommutation tables, mat_map and the cached sparse "
+            "letter data are exported from the running module each run and compared with the model inside Coq; the model's "
+            "executable definitions are evaluated by vm_compute on the same random sentences as the real PauliWord/"
+            "PauliSentence (@, +, +=, -, scalar *, commutator with word/sentence/operator operands, trace, commutes_with, "
+            "to_mat dense/csr with 6 buffer sizes/coo, default wire order, operation() matrices, PauliWord.to_mat, "
+            "pauli_decompose dense and scipy-sparse on random matrices, pauli_sentence/_pauli_sentence round trips) and compared "
+            "exactly; numpy identities mat(a op b) = mat(a) op mat(b), trace, dot and all round trips are also evaluated "
+            "directly on the implementation's output.",
     "note": "Coefficients are Gaussian DYADIC rationals represented as Gaussian integers over a power-of-two denominator "
             "tracked by the harness (floats are exact on that domain), not arbitrary Gaussian rationals / floats with "
-            "rounding.  Sentences are compared as finite maps word -> coefficient: a key with coefficient 0 equals an absent "
-            "key and dict insertion order is not compared.  pauli_decompose, operation() and the CSR batching internals "
-            "(_sum_same_structure_pws, buffer handling) are tied by correspondence and round trips only (no Coq model of the "
-            "Walsh-Hadamard routine; decompose_roundtrip is not proved).  Observation (DESIGN §5 item 14): "
-            "qp.pauli_decompose(np.zeros((2,2))) raises ValueError instead of returning the empty sentence; the all-zero "
-            "matrix is therefore not generated for the decomposition round trip.  Wire labels are mapped to integer codes by "
-            "the harness; interface tensors (torch/jax/autograd coefficients), batched coefficients and PauliSentence.dot "
-            "beyond one exact vector per case are outside the model.",
+            "rounding; the theorems are stated over the ring Z[i].  Sentences are compared as finite maps word -> "
+            "coefficient: a key with coefficient 0 equals an absent key and dict insertion order is not compared.  Not "
+            "proved (tied by correspondence and round trips only): the lifting of PauliSentence.commutator to a@b - b@a "
+            "(only the word-level statement is proved), decompose_roundtrip / wire_order_perm of DESIGN, pauli_decompose "
+            "(no Coq model of the Walsh-Hadamard routines), operation(), and the CSR internals (_get_csr_data/_get_csr_indices, "
+            "same-structure batching, buffer flushing): the model's to_mat is the mathematical definition (sum of Kronecker "
+            "products).  Observation (DESIGN §5 item 14, reproduced): qp.pauli_decompose(np.zeros((2,2)), pauli=True) raises "
+            "ValueError('need at least one array to stack') while the scipy-sparse path returns the empty sentence; the "
+            "all-zero matrix is therefore not generated for the decomposition round trip.  Wire labels are mapped to integer "
+            "codes by the harness; interface tensors (torch/jax/autograd coefficients), batched coefficients and "
+            "PauliSentence.dot beyond one exact vector per case are outside the model.",
     "assumptions": ["coefficients are exact dyadic Gaussian rationals (no floating-point rounding in the operations exercised)",
                     "wire orders are duplicate free",
                     "ML-interface coefficients (torch/jax/tf, batched) are outside the model"],
@@ -249,11 +260,6 @@ SCALE = {"add": D, "iadd": D, "sub": D, "matmul": D * D, "smul": D * D, "comm": 
          "commop": D * D, "commww": 1}
 GOP = {"add": "OAdd", "iadd": "OAdd", "sub": "OSub", "matmul": "OMatmul", "comm": "OComm", "commop": "OComm",
        "commws": "OCommWS"}
-
-
-def py_model_sent(c):
-    """None (no independent python oracle) -- the Coq model is the oracle; kept for clarity"""
-    return None
 
 
 def run(ctx):
